@@ -254,6 +254,45 @@ Fixpoint no_deviation (s : smap) (ops : list op) : bool :=
   | o :: ops' => negb (deviating s o) && no_deviation (snd (step_spec true s o)) ops'
   end.
 
+(* ---- listings and the caller's context ----
+   FSBucket.Objects(ctx, prefix) walks the whole bucket before it returns and
+   never consults ctx: the listing is complete whether or not the context is
+   already done.  Result: (an error was surfaced by the iterator, names). *)
+Definition list_ctx (ctx_done : bool) (m : fs) (prefix : bytes) : bool * list bytes :=
+  (false, list_names m prefix).
+Fixpoint names_eqb (a b : list bytes) : bool :=
+  match a, b with
+  | [], [] => true
+  | x :: a', y :: b' => beq x y && names_eqb a' b'
+  | _, _ => false
+  end.
+(* what the property asks of a listing: complete, or it fails *)
+Definition listing_ok (complete : list bytes) (r : bool * list bytes) : bool :=
+  fst r || names_eqb (snd r) complete.
+
+(* ---- several buckets in one process ----
+   A bucket is identified by the storage root it was opened under AND its
+   name (storage.NewAPI / NewBucket with cfg.LocalStorage = root): its tree is
+   the directory root/name.  Operations address one bucket. *)
+Definition bid := (N * N)%type.
+Definition bid_eqb (a b : bid) : bool := N.eqb (fst a) (fst b) && N.eqb (snd a) (snd b).
+Definition world := bid -> fs.
+Definition world_init : world := fun _ => fs_init.
+Definition wput (b : bid) (m : fs) (w : world) : world := fun b' => if bid_eqb b' b then m else w b'.
+Definition step_world (w : world) (bo : bid * op) : (bid * res) * world :=
+  let '(r, m') := step_fs (w (fst bo)) (snd bo) in ((fst bo, r), wput (fst bo) m' w).
+Fixpoint run_world (w : world) (ops : list (bid * op)) : list (bid * res) * world :=
+  match ops with
+  | [] => ([], w)
+  | bo :: ops' => let '(r, w') := step_world w bo in
+                  let '(rs, w'') := run_world w' ops' in (r :: rs, w'')
+  end.
+(* the operations / results that concern one bucket *)
+Definition proj_ops (b : bid) (ops : list (bid * op)) : list op :=
+  map snd (filter (fun bo => bid_eqb (fst bo) b) ops).
+Definition proj_res (b : bid) (rs : list (bid * res)) : list res :=
+  map snd (filter (fun br => bid_eqb (fst br) b) rs).
+
 (* ---- the object names the services construct ---- *)
 Definition json_ext : bytes := [46; 106; 115; 111; 110].   (* ".json" *)
 (* fmt.Sprintf("%s/%g.json", report.Week, report.X): xs is the %g rendering *)
